@@ -49,20 +49,31 @@ SIG = {
 
 
 # --------------------------------------------------------------------------- worlds
-def sec(name, kind, cached=True, key="static", pfx="", args=(), buf=False, filt=False, items=(), parent=0):
+def P(n, k="pos", d=""):
+    """One parameter of a signature: kind pos | def | var | kwo | kwd | kw (see Bind in Cache.tla)."""
+    return {"n": n, "k": k, "d": d}
+
+
+def sec(name, kind, cached=True, key="static", pfx="", args=(), buf=False, filt=False, items=(), parent=0, sig=None, kp=None):
+    if sig is None:
+        sig = [P("x")] if kind in ("def", "ndef") else []
+    if kp is None:
+        kp = 1 if key in ("arg", "argctx") else 0
     return {"name": name, "kind": kind, "cached": cached, "key": key, "pfx": pfx, "args": [list(a) for a in args],
-            "buf": buf, "filt": filt, "items": [dict(i) for i in items], "parent": parent}
+            "buf": buf, "filt": filt, "sig": [dict(p) for p in sig], "kp": kp, "items": [dict(i) for i in items], "parent": parent}
 
 
-def item(j, arg="", tm=0, how="call"):
-    return {"sec": j, "arg": arg, "tm": tm, "how": how}
+def item(j, arg="", tm=0, how="call", pos=None, kw=()):
+    return {"sec": j, "pos": list(pos) if pos is not None else ([arg] if arg else []), "kw": [list(x) for x in kw], "tm": tm, "how": how}
 
 
-def tmpl(uri, targs=(), bf=False, en0=True, cached=False, key="static", pfx="", pargs=(), items=(), secs=(), inh=0, parg=""):
+def tmpl(uri, targs=(), bf=False, en0=True, cached=False, key="static", pfx="", pargs=(), items=(), secs=(), inh=0, psig=(), pkp=None):
+    if pkp is None:
+        pkp = 1 if key in ("arg", "argctx") else 0
     return {"uri": list(uri), "targs": [list(a) for a in targs], "bf": bf, "en0": en0, "inh": inh,
             "isbase": any(i["how"] == "next" for i in items),
-            "page": {"cached": cached, "key": key, "pfx": pfx, "args": [list(a) for a in pargs], "parg": parg,
-                     "items": [dict(i) for i in items]},
+            "page": {"cached": cached, "key": key, "pfx": pfx, "args": [list(a) for a in pargs], "sig": [dict(p) for p in psig],
+                     "kp": pkp, "items": [dict(i) for i in items]},
             "secs": list(secs)}
 
 
@@ -74,11 +85,14 @@ def mc_worlds():
     """Small hand-made worlds for exhaustive model checking (placements of the cached flag)."""
     w1 = world([
         tmpl(["a", ".", "html"], targs=[("type", "s:memory"), ("a", "s:T")], bf=True, pargs=[("a", "s:P"), ("timeout", "s:7")],
-             items=[item(1, "A"), item(1, "V"), item(2, "A"), item(1, "B", tm=2, how="ns"), item(0, "", tm=2, how="inc")],
-             secs=[sec("foo", "def", key="arg", pfx="K1_", args=[("b", "s:D"), ("timeout", "s:34")], buf=True, filt=True),
+             items=[item(1, pos=["A", "B"], kw=[["f", "V"]]), item(1, pos=["V"]), item(2, "A"), item(1, "B", tm=2, how="ns"),
+                    item(0, "", tm=2, how="inc")],
+             secs=[sec("foo", "def", key="arg", pfx="K1_", args=[("b", "s:D"), ("timeout", "s:34")], buf=True, filt=True,
+                       sig=[P("a"), P("r", "var"), P("f", "kwd", "D2")], kp=3),
                    sec("outer", "def", cached=False, items=[item(3, "B")]),
                    sec("inner", "ndef", args=[("a", "s:I")], parent=2)]),
-        tmpl(["b", ".", "html"], cached=True, key="argctx", pfx="pg_", parg="P", items=[item(1, "A")],
+        tmpl(["b", ".", "html"], cached=True, key="argctx", pfx="pg_", psig=[P("pa", "def", "D1"), P("pr", "var"), P("ps", "kwd", "D2")], pkp=3,
+             items=[item(1, "A")],
              secs=[sec("foo", "def", key="arg", pfx="K1_")]),
     ], passctx=True)
     w2 = world([
@@ -123,6 +137,26 @@ def finding_worlds():
     return {"ArgsPrecedence": args, "Isolation": iso, "ReplayExact": bfw}
 
 
+def probe_worlds():
+    """Signature shapes of CACHED sections on which the wrapper generated by codegen.write_cache_decorator already fails on
+    the unchanged tree (so the random worlds leave them to uncached sections): name -> (world, signature, what)."""
+    kwo = world([tmpl(["r", ".", "html"], items=[item(1, pos=["A", "B"], kw=[["s", "V"]])],
+                      secs=[sec("foo", "def", sig=[P("a"), P("r", "var"), P("s", "kwo")])])], passctx=False)
+    kwo2 = world([tmpl(["r", ".", "html"], items=[item(1, pos=["A"], kw=[["s", "V"]])],
+                       secs=[sec("foo", "def", sig=[P("a"), P("d", "def", "D1"), P("r", "var"), P("s", "kwo")])])], passctx=False)
+    dv = world([tmpl(["r", ".", "html"], items=[item(1, pos=["A", "B", "V"])],
+                     secs=[sec("foo", "def", sig=[P("a"), P("d", "def", "D1"), P("r", "var")])])], passctx=False)
+    s1 = ("cached-section-required-keyword-only-parameter",
+          "a cached def/page whose signature has a keyword-only parameter WITHOUT default (foo(a, *r, s)) cannot be rendered: the "
+          "cache wrapper passes s positionally (lambda: __M_render_foo(context, a, *r, s)) -> TypeError missing keyword-only "
+          "argument, or a raw SyntaxError from the generated module when a defaulted parameter precedes it; uncached it works")
+    s2 = ("cached-section-defaulted-positional-before-varargs",
+          "a cached def with a defaulted positional parameter followed by *args (foo(a, d='D1', *r)) called with extra positional "
+          "arguments raises TypeError 'got multiple values for argument d': the cache wrapper calls __M_render_foo(context, a, d=d, *r); "
+          "uncached it works")
+    return {"kwonly-required": (kwo, s1[0], s1[1]), "kwonly-required-after-default": (kwo2, s1[0], s1[1]), "default-before-varargs": (dv, s2[0], s2[1])}
+
+
 WORDS = ["a", "b", "idx", "main", "x1"]
 PUNCT = ["-", "_", ".", "/", "~", "+"]
 ARGNAMES = ["type", "dir", "url", "region", "timeout", "foo"]
@@ -165,6 +199,68 @@ def gen_uri_set(rng, n, collide):
     return uris
 
 
+SCALAR = ("pos", "def", "kwo", "kwd")
+
+
+def gen_sig(rng, cached, page=False):
+    """A legal signature of up to 4 parameters.  On CACHED sections two shapes are left to the dedicated probes of
+    check() because the unchanged code already fails on them (see PROBES): a keyword-only parameter without default,
+    and a defaulted positional parameter together with *args."""
+    if page:
+        # the page body is called without actuals: every parameter needs a default (or is *args)
+        n = rng.choice([0, 0, 0, 1, 2, 3])
+        kinds = sorted(rng.choice(["def", "var", "kwd"]) for _ in range(n))
+        kinds = [k for i, k in enumerate(kinds) if not (k == "var" and "var" in kinds[:i])]
+        if "var" not in kinds:
+            kinds = ["def" if k == "kwd" else k for k in kinds]
+        kinds.sort(key=["def", "var", "kwd"].index)
+        if cached and "var" in kinds:
+            kinds = [k for k in kinds if k != "def"]
+        names = {"def": iter(["pa", "pb", "pd", "pe"]), "var": iter(["pr"]), "kwd": iter(["ps", "pt", "pu", "pw"])}
+    else:
+        n = rng.choice([0, 1, 1, 1, 2, 2, 3, 3, 4])
+        npos = rng.randint(0, min(n, 2)); n -= npos
+        ndef = rng.randint(0, min(n, 2)); n -= ndef
+        var = 1 if n and rng.random() < 0.6 else 0; n -= var
+        nko = rng.randint(0, n) if var else 0; n -= nko
+        kw = 1 if n and rng.random() < 0.6 else 0
+        kinds = ["pos"] * npos + ["def"] * ndef + ["var"] * var + [rng.choice(["kwo", "kwd"]) for _ in range(nko)] + ["kw"] * kw
+        if cached:
+            kinds = ["kwd" if k == "kwo" else k for k in kinds]
+            if "var" in kinds:
+                kinds = ["pos" if k == "def" else k for k in kinds]
+        names = {"pos": iter(["a", "b", "a2", "b2"]), "def": iter(["d", "e"]), "var": iter(["r"]), "kwo": iter(["s", "t", "w", "s2"]),
+                 "kwd": iter(["f", "g", "h", "f2"]), "kw": iter(["k"])}
+    dflt = iter(["D1", "D2", "D3", "D4"])
+    return [P(next(names[k]), k, next(dflt) if k in ("def", "kwd") else "") for k in kinds]
+
+
+def gen_call(rng, sig):
+    """Actuals of a LEGAL call of a callable with signature `sig`: positional / keyword / mixed, defaults left out."""
+    def val():
+        return rng.choice(["A", "B", "V"])
+    pc = [p for p in sig if p["k"] in ("pos", "def")]
+    npos = rng.randint(0, len(pc))
+    pos, kw = [val() for _ in range(npos)], []
+    for p in pc[npos:]:
+        if p["k"] == "pos" or rng.random() < 0.5:
+            kw.append([p["n"], val()])
+    for p in sig:
+        if p["k"] == "var" and npos == len(pc):
+            pos += [val() for _ in range(rng.choice([0, 1, 2]))]
+        elif p["k"] == "kwo" or (p["k"] == "kwd" and rng.random() < 0.5):
+            kw.append([p["n"], val()])
+        elif p["k"] == "kw":
+            kw += [[n, val()] for n in ("k1", "k2") if rng.random() < 0.5]
+    rng.shuffle(kw)
+    return pos, kw
+
+
+def pick_kp(rng, sig):
+    idx = [i for i, p in enumerate(sig, 1) if p["k"] in SCALAR]
+    return rng.choice(idx) if idx else 0
+
+
 def gen_template(rng, uri, profile, tno):
     nsec = rng.choice([1, 2, 2, 3, 3, 4])
     secs = []
@@ -188,19 +284,27 @@ def gen_template(rng, uri, profile, tno):
         pfx = "" if key == "static" else ("KS_" if rng.random() < 0.2 else "K%d_" % j)
         buf = kind in ("def", "ndef") and rng.random() < 0.35      # buffered blocks are not generated (see limits)
         filt = rng.random() < 0.3
-        secs.append(sec(name, kind, cached=cached, key=key, pfx=pfx, args=gen_args(rng, profile, 0.25), buf=buf, filt=filt, parent=parent))
+        secs.append(sec(name, kind, cached=cached, key=key, pfx=pfx, args=gen_args(rng, profile, 0.25), buf=buf, filt=filt, parent=parent,
+                        sig=[], kp=0))
     # parents of nested defs are mostly left uncached so that the nested section is reached
     for s in secs:
         if s["kind"] == "ndef" and rng.random() < 0.6:
             secs[s["parent"] - 1]["cached"] = False
+    for s in secs:
+        if s["kind"] in ("def", "ndef"):
+            s["sig"] = gen_sig(rng, s["cached"])
+            s["kp"] = pick_kp(rng, s["sig"])
+            if s["key"] in ("arg", "argctx") and not s["kp"]:
+                s["key"], s["pfx"] = "static", ""
 
-    def arg():
-        return rng.choice(["A", "B", "V"])
+    def call(j, **kw):
+        pos, kws = gen_call(rng, secs[j - 1]["sig"])
+        return item(j, pos=pos, kw=kws, **kw)
     page_items = []
     for j, s in enumerate(secs, 1):
         if s["kind"] == "def":
             for _ in range(rng.choice([0, 1, 1, 2])):
-                page_items.append(item(j, arg()))
+                page_items.append(call(j))
         elif s["kind"] == "nblock" or (s["kind"] == "ablock" and s["parent"] == 0):
             page_items.append(item(j))
     rng.shuffle(page_items)
@@ -210,12 +314,12 @@ def gen_template(rng, uri, profile, tno):
             for k, s2 in enumerate(secs, 1):
                 if s2["parent"] == j and s2["kind"] == "ndef":
                     for _ in range(rng.choice([1, 1, 2])):
-                        its.append(item(k, arg()))
+                        its.append(call(k))
                 elif s2["parent"] == j and s2["kind"] == "ablock":
                     its.append(item(k))
         for k, s2 in enumerate(secs, 1):
             if k > j and s2["kind"] == "def" and rng.random() < 0.2:
-                its.append(item(k, arg()))
+                its.append(call(k))
         rng.shuffle(its)
         s["items"] = its
     # a section never reaches (through calls) a section with a possibly equal key: that would be a cached
@@ -234,7 +338,7 @@ def gen_template(rng, uri, profile, tno):
     called = {i["sec"] for s in secs for i in s["items"]} | {i["sec"] for i in page_items}
     for j, s in enumerate(secs, 1):
         if s["kind"] == "def" and j not in called:
-            page_items.append(item(j, arg()))
+            page_items.append(call(j))
     if profile == "rec":
         targs = [[n, ("i:%d" % rng.choice([5, 60]) if n == "timeout" else "s:" + rng.choice(ARGVALS[n]))] for n in ARGNAMES if rng.random() < 0.3]
     elif profile == "beaker-mem":
@@ -246,11 +350,12 @@ def gen_template(rng, uri, profile, tno):
     else:  # dogpile: one region per template (the plugin does not namespace keys by cache id)
         targs = [["regions", "o:dict"], ["region", "s:r%d" % tno]]
     pcached = rng.random() < 0.3
-    parg = "P" if rng.random() < 0.3 else ""                  # <%page args="x='P'"/>
-    pkey = rng.choice(["static", "ctx", "mod"] + (["arg", "argctx"] if parg else [])) if pcached else "static"
+    psig = gen_sig(rng, pcached, page=True)                   # <%page args="pa='D1', *pr, ps='D2'"/>
+    pkp = pick_kp(rng, psig)
+    pkey = rng.choice(["static", "ctx", "mod"] + (["arg", "argctx"] if pkp else [])) if pcached else "static"
     return {"uri": uri, "targs": targs, "bf": rng.random() < 0.4, "en0": rng.random() < 0.85, "inh": 0, "isbase": False,
             "page": {"cached": pcached, "key": pkey, "pfx": "" if pkey == "static" else "pg_", "args": gen_args(rng, profile, 0.2),
-                     "parg": parg, "items": page_items},
+                     "sig": psig, "kp": pkp, "items": page_items},
             "secs": secs}
 
 
@@ -280,7 +385,9 @@ def gen_world(rng, profile):
                 host = rng.choice(hosts)
                 defs = [j for j, x in enumerate(tmpls[k]["secs"], 1) if x["kind"] == "def"]
                 if defs and rng.random() < 0.6:
-                    it = item(rng.choice(defs), rng.choice(["A", "B", "V"]), tm=k + 1, how="ns")
+                    j = rng.choice(defs)
+                    pos, kws = gen_call(rng, tmpls[k]["secs"][j - 1]["sig"])
+                    it = item(j, pos=pos, kw=kws, tm=k + 1, how="ns")
                 else:
                     it = item(0, "", tm=k + 1, how="inc")
                 host["items"].insert(rng.randrange(len(host["items"]) + 1), it)
@@ -333,9 +440,27 @@ def untag(v):
     return v[2:]
 
 
+def sig_text(sig):
+    f = {"pos": "%(n)s", "def": "%(n)s='%(d)s'", "var": "*%(n)s", "kwo": "%(n)s", "kwd": "%(n)s='%(d)s'", "kw": "**%(n)s"}
+    return ", ".join(f[p["k"]] % p for p in sig)
+
+
+def fields_text(sig):
+    """What a body prints of its parameters: one comma-separated field per parameter (see parse_binding)."""
+    f = {"var": "${'+'.join(%s)}", "kw": "${'+'.join('%%s=%%s' %% kv for kv in sorted(%s.items()))}"}
+    return ",".join(f.get(p["k"], "${%s}") % p["n"] for p in sig)
+
+
+def actuals_text(it):
+    def a(v):
+        return "v" if v == "V" else "'%s'" % v
+    return ", ".join([a(v) for v in it["pos"]] + ["%s=%s" % (n, a(v)) for n, v in it["kw"]])
+
+
 def attrs_of(s, is_page=False):
     a = []
-    x = "px" if is_page else "x"      # the page's argument has its own name: <%include> fills page arguments from the context
+    x = s["sig"][s["kp"] - 1]["n"] if s.get("kp") else "?"       # the parameter the cache_key mentions
+    # (page parameters are named p*: <%include> fills page arguments from same-named context data)
     if s["cached"]:
         a.append('cached="True"')
     if s["key"] == "ctx":
@@ -346,8 +471,8 @@ def attrs_of(s, is_page=False):
         a.append('cache_key="%s${%s}_${v}"' % (s["pfx"], x))
     elif s["key"] == "mod":
         a.append('cache_key="%s${MK}"' % s["pfx"])
-    if is_page and s.get("parg"):
-        a.append("args=\"px='%s'\"" % s["parg"])
+    if is_page and s.get("sig"):
+        a.append('args="%s"' % sig_text(s["sig"]))
     for n, v in s["args"]:
         a.append('cache_%s="%s"' % (n, untag(v)))
     if not is_page:
@@ -369,15 +494,14 @@ def template_text(w, tno=1, uris=None):
         return uris[k - 1] if uris else "/w/t%d" % k
 
     def token(s):
-        x = "${x}" if s["kind"] in ("def", "ndef") else ""
-        return "(%s:${c.tick('%d.%s')}:${v}:%s:%d)" % (s["name"], tno, s["name"], x, tno)
+        return "(%s:${c.tick('%d.%s')}:${v}:%s:%d)" % (s["name"], tno, s["name"], fields_text(s["sig"]), tno)
 
     def call(it, others):
         if it["how"] == "inc":
             return '<%%include file="%s"/>' % uri_of(it["tm"])
         if it["how"] == "next":
             return "${next.body()}"
-        a = "v" if it["arg"] == "V" else "'%s'" % it["arg"]
+        a = actuals_text(it)
         if it["how"] == "ns":
             return "${n%d.%s(%s)}" % (it["tm"], others[it["tm"]][it["sec"] - 1], a)
         s = secs[it["sec"] - 1]
@@ -393,7 +517,7 @@ def template_text(w, tno=1, uris=None):
         out = [token(s)]
         for k, s2 in enumerate(secs, 1):
             if s2["kind"] == "ndef" and s2.get("parent") == j:
-                out.append('\n<%%def name="%s(x)" %s>%s</%%def>\n' % (s2["name"], attrs_of(s2), body(k, others)))
+                out.append('\n<%%def name="%s(%s)" %s>%s</%%def>\n' % (s2["name"], sig_text(s2["sig"]), attrs_of(s2), body(k, others)))
         for it in s["items"]:
             out.append(call(it, others))
         return "".join(out)
@@ -411,8 +535,8 @@ def template_text(w, tno=1, uris=None):
         parts.append('<%%namespace name="n%d" file="%s"/>\n' % (k, uri_of(k)))
     for j, s in enumerate(secs, 1):
         if s["kind"] == "def":
-            parts.append('<%%def name="%s(x)" %s>%s</%%def>\n' % (s["name"], attrs_of(s), body(j, others)))
-    parts.append("(body:${c.tick('%d.body')}:${v}:%s:%d)" % (tno, "${px}" if t["page"].get("parg") else "", tno))
+            parts.append('<%%def name="%s(%s)" %s>%s</%%def>\n' % (s["name"], sig_text(s["sig"]), attrs_of(s), body(j, others)))
+    parts.append("(body:${c.tick('%d.body')}:${v}:%s:%d)" % (tno, fields_text(t["page"]["sig"]), tno))
     for it in t["page"]["items"]:
         parts.append(call(it, others))
     text = "".join(parts)
@@ -425,23 +549,51 @@ def template_text(w, tno=1, uris=None):
     return text, anon
 
 
-TOKEN = re.compile(r"\((\w+):(\d+):(\w*):(\w*):(\d+)\)|([{}<>])|(\s+)|([^\s(){}<>]+|[()])")
+TOKEN = re.compile(r"\((\w+):(\d+):(\w*):([\w,+=]*):(\d+)\)|([{}<>])|(\s+)|([^\s(){}<>]+|[()])")
 
 
-def parse_out(s):
-    """Rendered text -> tokens [name, n, ctx, arg, template] (brackets: [b, 0, '', '', 0])."""
+def parse_binding(text, sig):
+    """The parameter fields a body printed -> binding as in Cache.tla (one list of strings per parameter); None if the
+    text does not have one field per parameter."""
+    if not sig:
+        return [] if text == "" else None
+    fs = text.split(",")
+    if len(fs) != len(sig):
+        return None
+    out = []
+    for f, p in zip(fs, sig):
+        if p["k"] == "var":
+            out.append(f.split("+") if f else [])
+        elif p["k"] == "kw":
+            out.append([x for kv in f.split("+") for x in kv.split("=", 1)] if f else [])
+        else:
+            out.append([f])
+    return out
+
+
+def parse_out(s, w=None):
+    """Rendered text -> tokens [name, n, ctx, binding, template] (brackets: [b, 0, '', [], 0])."""
     if not isinstance(s, str):
-        return [["?type:" + type(s).__name__, 0, "", "", 0]]
+        return [["?type:" + type(s).__name__, 0, "", [], 0]]
     out = []
     for m in TOKEN.finditer(s):
         if m.group(1) is not None:
-            out.append([m.group(1), int(m.group(2)) % 10 ** 6, m.group(3), m.group(4), int(m.group(5)) % 1000])
+            name, tno = m.group(1), int(m.group(5)) % 1000
+            sig = None
+            if w is not None and 1 <= tno <= len(w["tmpls"]):
+                tt = w["tmpls"][tno - 1]
+                sig = tt["page"]["sig"] if name == "body" else next((x["sig"] for x in tt["secs"] if x["name"] == name), None)
+            b = parse_binding(m.group(4), sig if sig is not None else [])
+            if b is None:
+                out.append(["?raw:" + m.group(0)[:30], 0, "", [], 0])
+            else:
+                out.append([name, int(m.group(2)) % 10 ** 6, m.group(3), b, tno])
         elif m.group(6):
-            out.append([m.group(6), 0, "", "", 0])
+            out.append([m.group(6), 0, "", [], 0])
         elif m.group(7):
             continue
         else:
-            out.append(["?raw:" + m.group(0)[:20], 0, "", "", 0])
+            out.append(["?raw:" + m.group(0)[:20], 0, "", [], 0])
     return out
 
 
@@ -563,7 +715,7 @@ class Driver:
         for ns, d in self.rec.store.items():
             t = owners.get(ns, 1)
             for k, v in d.items():
-                out.append([self._ns(ns), self._key(t, k), parse_out(v)])
+                out.append([self._ns(ns), self._key(t, k), parse_out(v, self.w)])
         out.sort(key=json.dumps)
         return out
 
@@ -597,7 +749,9 @@ class Driver:
                 self.rec.counter = self.counter
                 try:
                     if ev == "renderdef":
-                        text = tp.get_def(o["name"]).render(x=o["arg"], c=self.counter, v=o["c"])
+                        sg = next(x["sig"] for x in self.w["tmpls"][t - 1]["secs"] if x["name"] == o["name"])
+                        req = {p["n"]: o["arg"] for p in sg if p["k"] == "pos"}
+                        text = tp.get_def(o["name"]).render(c=self.counter, v=o["c"], **req)
                     elif self.cos.random() < 0.3:
                         import io
                         from mako.runtime import Context
@@ -606,9 +760,9 @@ class Driver:
                         text = buf.getvalue()
                     else:
                         text = tp.render(c=self.counter, v=o["c"])
-                    e["out"] = parse_out(text)
+                    e["out"] = parse_out(text, self.w)
                 except Exception as ex:  # noqa
-                    e["out"] = [["exc:" + type(ex).__name__, 0, "", "", 0]]
+                    e["out"] = [["exc:" + type(ex).__name__, 0, "", [], 0]]
                 e["execs"] = self.execs()
             elif ev == "invbody":
                 tp.cache.invalidate_body()
@@ -630,7 +784,7 @@ class Driver:
                 if r is None or type(r).__name__ == "NoValue":
                     e["found"], e["res"] = False, []
                 else:
-                    e["found"], e["res"] = True, parse_out(r)
+                    e["found"], e["res"] = True, parse_out(r, self.w)
             elif ev == "toggle":
                 tp.cache_enabled = not tp.cache_enabled
                 e["en"] = bool(tp.cache_enabled)
@@ -768,7 +922,7 @@ def keys_of(t):
         elif s["key"] == "ctx":
             ks += [[s["pfx"], c] for c in CTX_VALS]
         elif s["key"] == "arg":
-            ks += [[s["pfx"], a] for a in ["A", "B", "P"] + CTX_VALS]
+            ks += [[s["pfx"], a] for a in ["A", "B", "D2"] + CTX_VALS]
         elif s["key"] == "argctx":
             ks += [[s["pfx"], a, c] for a in ["A", "B"] + CTX_VALS for c in CTX_VALS]
         else:
@@ -786,7 +940,7 @@ def random_history(rng, w, n_ops, allow_set):
             if not tt["isbase"]:
                 ops.append({"ev": "render", "t": t, "c": rng.choice(CTX_VALS)})
         elif kind == "renderdef":
-            names = [s["name"] for s in tt["secs"] if s["kind"] == "def" and not s["buf"]]
+            names = [s["name"] for s in tt["secs"] if s["kind"] == "def" and not s["buf"] and all(p["k"] not in ("kwo", "kw") for p in s["sig"])]
             if names:
                 ops.append({"ev": "renderdef", "t": t, "name": rng.choice(names), "arg": rng.choice(["A", "B"]), "c": rng.choice(CTX_VALS)})
         elif kind == "invbody":
@@ -880,16 +1034,17 @@ def check(run):
     acts = {}
     # vacuity: TLC's coverage statistics on a one-template world in which every action is enabled (their cost grows with
     # the size of the worlds literal: 20 s on the worlds below, so the big runs go without)
-    res = run.tlc("MC_Cache", cfg(DEVS, ALL_OPS, WEAK, 2), name="mc-cover", coverage=True, timeout=600,
-                  extra_files={"CacheProgs.tla": progs_module([mcw[1]])}, workers=4)
-    if res.violated:
-        run.spec_violation(res, "TLC: %s violated in Cache.tla (mc-cover)" % res.violated)
-    for a, (dd, g) in res.coverage.items():
-        acts[a] = acts.get(a, 0) + g
-    for a in ("DoRender", "DoRenderDef", "DoInvBody", "DoInvDef", "DoInvClosure", "DoInvalidate", "DoSet", "DoGet", "DoToggle"):
-        if not acts.get(a):
-            raise MachineryError("vacuous model checking: action %s never taken (%s)" % (a, acts))
-    run.extra["tlc_action_coverage"] = acts
+    if thorough:       # (in the quick tier vacuity is judged from the operations of the replayed behaviours, see op_counts below)
+        res = run.tlc("MC_Cache", cfg(DEVS, ALL_OPS, WEAK, 2), name="mc-cover", coverage=True, timeout=600,
+                      extra_files={"CacheProgs.tla": progs_module([mcw[1]])}, workers=4)
+        if res.violated:
+            run.spec_violation(res, "TLC: %s violated in Cache.tla (mc-cover)" % res.violated)
+        for a, (dd, g) in res.coverage.items():
+            acts[a] = acts.get(a, 0) + g
+        for a in ("DoRender", "DoRenderDef", "DoInvBody", "DoInvDef", "DoInvClosure", "DoInvalidate", "DoSet", "DoGet", "DoToggle"):
+            if not acts.get(a):
+                raise MachineryError("vacuous model checking: action %s never taken (%s)" % (a, acts))
+        run.extra["tlc_action_coverage"] = acts
     both = "{FALSE, TRUE}"
     for name, devs, invs, ops, depth, xv in [
         ("mc-intended", [], STRICT, small_ops, d_main, both),
@@ -930,6 +1085,28 @@ def check(run):
         else:
             run.violation("model-mismatch-on-%s-counterexample" % inv,
                           "the real code does not follow the code-shaped model on the %s counterexample (deviation no longer present?)" % inv,
+                          {"backend": "rec", "world": w, "ops": mm.get("history"), "mismatch": mm})
+
+    # ------------------------------------------------------------------ 2b. signature shapes the cache wrapper cannot pass on
+    for pname, (w, sig, what) in probe_worlds().items():
+        simdir = run.subdir("probe-" + pname)
+        run.tlc("MC_Cache", cfg([], ["render"], STRICT), name="probe-" + pname, workers=1, simulate="file=%s/tr,num=1" % simdir, depth=3,
+                timeout=300, count=False, extra_files={"CacheProgs.tla": progs_module([w])})
+        states = [st for _, st in core.parse_simulate_file(os.path.join(simdir, sorted(os.listdir(simdir))[0]))]
+        mm = replay_behaviour(states, w, "rec", next_hid(), run.scratch)
+        run.traces += 1
+        if mm is None:
+            continue                     # the code renders what the model (= the uncached section) renders
+        obs = mm.get("observed")
+        raised = mm["clause"] == "construct" or (mm["clause"] == "out" and obs and str(obs[0][0]).startswith("exc:"))
+        texts = [template_text(w, k)[0] for k in range(1, len(w["tmpls"]) + 1)]
+        if raised:
+            run.violation(sig, what, {"backend": "rec", "world": w, "ops": mm.get("history") or [{"ev": "render", "t": 1, "c": "u"}],
+                                      "templates": texts, "observed": obs,
+                                      "source": "expected output of the first render from Cache.tla (TLC), the real template raises"})
+        else:
+            run.violation("replay:%s:%s" % (mm["op"], mm["clause"]), "real templates disagree with Cache.tla on probe %s: expected %s, observed %s"
+                          % (pname, json.dumps(mm.get("expected"))[:300], json.dumps(obs)[:300]),
                           {"backend": "rec", "world": w, "ops": mm.get("history"), "mismatch": mm})
 
     # ------------------------------------------------------------------ 3. R: simulate -> replay on real templates
